@@ -1,1 +1,2 @@
 //! Tape decoders (generators).
+pub mod prog;
